@@ -253,6 +253,7 @@ func zzC04PagMergePag(ks, ko int) {
 	zzvAssert("content", zzAbsPag(s, p) == zzAbsPag(preS, p)+zzAbsPag(preO, p))
 	zzvAssert("total", zzTotalPag(s) == zzTotalPag(preS)+zzTotalPag(preO))
 	zzvAssert("argument-unchanged", zzSamePagExact(o, preO))
+	zzvAssert("receiver-and-argument-share-no-memory", zzvDisjoint(s, o))
 }
 
 func ZZ_C04_pag_merge_pag_0_3() { zzC04PagMergePag(0, 3) }
@@ -274,12 +275,17 @@ func zzC04PagCopyClearReweight(k int) {
 		zzvAssert("copy-inv", zzInvPag(cp))
 		zzvAssert("copy-equal", zzAbsPag(cp, p) == zzAbsPag(pre, p))
 		zzvAssert("original-unchanged-by-copy", zzSamePagExact(s, pre))
+		zzvAssert("copy-shares-no-memory-with-original", zzvDisjoint(s, cp))
 		i := zzIdx("i")
 		if s.minPageIndex != maxInt {
 			zzvAssume(zzvAnd(i >= (s.minPageIndex-2)<<5, i < (s.minPageIndex+10)<<5))
 		}
 		c := zzW("c")
-		switch zzvChoose("mutate", 3) {
+		nm := 2
+		if len(pre.buffer) == 0 {
+			nm = 3 // the both-lines case only for the layouts without buffered entries (fresh, cleared, pages only)
+		}
+		switch zzvChoose("mutate", nm) {
 		case 0:
 			s.AddWithCount(i, c)
 			zzvAssert("copy-independent-of-original", zzAbsPag(cp, p) == zzAbsPag(pre, p))
